@@ -29,10 +29,10 @@ open Verif.Wmpt
     number 1..total weight, the honest proof verifies; verification yields the hash of the trie and the value of the
     entry whose cumulative-weight interval contains the block. -/
 theorem C10_complete (H : Bytes → Bytes) (hlen : ∀ x, (H x).length = 32) (t : PT) (b : Nat)
-    (hb1 : 1 ≤ b) (hb : b ≤ t.weight) (hw : t.weight < 2 ^ 64) :
+    (hb1 : 1 ≤ b) (hb : b ≤ t.weight) (hw : t.weight < 2 ^ 64) (hkn : KeysNib t) :
     ∃ k v, ownerSpec t.entries b = some (k, v) ∧
       verifyPairs H ((t.proofPairs H b).map PairD.ok) b = .ok (t.hash H, v) := by
-  obtain ⟨n, k, v, ho, hv, _, hh, _⟩ := verify_honest H hlen t b [] hb1 hb hw
+  obtain ⟨n, k, v, ho, hv, _, hh, _⟩ := verify_honest H hlen t b [] hb1 hb hw hkn
   rw [owner_eq_ownerSpec t b hb1 hb] at ho
   refine ⟨k, v, ho, ?_⟩
   simp only [List.append_nil] at hv
@@ -54,7 +54,7 @@ theorem C10_complete_model (H : Bytes → Bytes) (hlen : ∀ x, (H x).length = 3
       ownerSpec ts.entries b = some (RepMore.keybytesToHex key, v) ∧
       verifyBlockProof H proof b = .ok (ts.hash H, v) := by
   obtain ⟨k, v, key, ho, _, hk, _, hbp⟩ := blockProof_rep' hlen t ts 64 b hdb hrep hp hud hu (by decide) (by decide) hok hb1 hb
-  obtain ⟨k', v', ho', hv'⟩ := C10_complete H hlen ts b hb1 hb hok.1
+  obtain ⟨k', v', ho', hv'⟩ := C10_complete H hlen ts b hb1 hb hok.1 hok.2.keysNib
   rw [owner_eq_ownerSpec ts b hb1 hb] at ho
   rw [ho] at ho'
   simp only [Option.some.injEq, Prod.mk.injEq] at ho'
@@ -103,9 +103,9 @@ theorem C10_sound_partial (H : Bytes → Bytes) (hlen : ∀ x, (H x).length = 32
 
 /-- the hypothesis of `C10_sound_partial` is satisfiable: every honest proof is faithful -/
 theorem honest_is_faithful (H : Bytes → Bytes) (hlen : ∀ x, (H x).length = 32) (t : PT) (b : Nat)
-    (hb1 : 1 ≤ b) (hb : b ≤ t.weight) (hw : t.weight < 2 ^ 64) :
+    (hb1 : 1 ≤ b) (hb : b ≤ t.weight) (hw : t.weight < 2 ^ 64) (hkn : KeysNib t) :
     Faithful t ((t.proofPairs H b).map PairD.ok) b := by
-  have := faithful_honest H hlen t b [] hb1 hb hw
+  have := faithful_honest H hlen t b [] hb1 hb hw hkn
   simpa using this
 
 /-- two keys (nibbles [1,1] and [2,1]) of weight 2 each -/
